@@ -18,6 +18,12 @@ CHECKS['C02'] = dict(
     note='bounded families (<=3 rules, inputs <=4, priorities on rule names); table exactness on reduced grammars judged against L0, on non-reduced against the L1 transcription',
     ref='6/C02')
 
+CHECKS['C08'] = dict(
+    technique='TLA+ viable-prefix / next-terminal definitions (LFP over open spans) with Earley and LALR error branches model-checked against them (TLC) + trace validation of every real rejection (class, position, expected/allowed/accepts)',
+    text='TLC proves on F_bnf that the Earley machine and the LALR driver stop at the first token after which the prefix is not viable (productive / reduced conflict-free grammars) and expect exactly the legal next terminals; the same TLA+ definitions judge class, pos_in_stream, expected/allowed and accepts of every rejection the real lark raises on F_bnf, F_rand and inputs with ignored and unknown characters under five parser/lexer pairs (CYK sampled).',
+    note='single-character terminals so that offsets are certain; LALR on S/R or non-reduced grammars judged against the automaton of LALR.tla; two known findings (non-reduced grammars, LALR loop)',
+    ref='6/C08')
+
 NOT_APPLICABLE = []
 
 
